@@ -1,6 +1,9 @@
 //! `core <Cnn> quick|thorough` / `core replay <Cnn> <file>`: checks for C01-C14 and C20.
 
 mod c_animator;
+mod c_easing;
+mod c_lerp;
+mod c_robust;
 mod c_timeline;
 mod c_timescale;
 mod desc;
@@ -10,6 +13,10 @@ use mv_engine::Run;
 
 fn main() {
     let args: Vec<String> = std::env::args().skip(1).collect();
+    if args.first().map(|s| s.as_str()) == Some("c20-child") {
+        mv_engine::quiet_panics();
+        std::process::exit(c_robust::c20_child(&args));
+    }
     let Some(mut run) = Run::from_args(&args) else {
         eprintln!("usage: core <C01..C14|C20> [quick|thorough] | core replay <Cnn> <file>");
         std::process::exit(2);
@@ -28,6 +35,9 @@ fn main() {
         "C10" => c_timeline::c10(&mut run),
         "C11" => c_timeline::c11(&mut run),
         "C12" => c_timeline::c12(&mut run),
+        "C13" => c_easing::c13(&mut run),
+        "C14" => c_lerp::c14(&mut run),
+        "C20" => c_robust::c20(&mut run),
         other => {
             eprintln!("unknown property {other}");
             std::process::exit(2);
